@@ -853,6 +853,30 @@ def start(ctx, prog):
                 else:
                     ctx.ok(rule, p.id, "DataRequest{filter, qos, group, max_count} = filter.path, filter.qos, the group parameter, a positive batch size", site=p.loc(st.get("sp")))
     ctx.floor(rule, "DataRequest constructions in prepare_filter", n, 1)
+    # 'with the subscription's granted QoS': the Subscribe arm grants filter.qos in the SUBACK for EVERY filter, so on the
+    # path where the filter was already subscribed (subscriptions.insert() == false) the existing request must take
+    # the new QoS as well
+    from .c15 import switch_on_call_result
+    ins = [w for w in switch_on_call_result(p, r"HashSet::<T, S(, A)?>::insert$") if [x.split(".")[-1] for x in (receiver_fields(p, p.blocks[w[3]]["t"]) or [])][-1:] == ["subscriptions"]]
+    if not ins:
+        ctx.anchor_missing(rule, "prepare_filter: branch on connection.subscriptions.insert() not found")
+    else:
+        t_old = ins[0][2]      # insert() returned false: re-subscription
+        region = reachable(p, (t_old,), avoid_blocks=(ins[0][1],))
+        updates = False
+        for b in region:
+            for st in p.blocks[b]["s"]:
+                if "lhs" in st and place_fields(st["lhs"])[-1:] == ["qos"]:
+                    updates = True
+            t = p.blocks[b]["t"]
+            if t["k"] == "call" and re.search(r"(update|set|change).*qos|resubscribe|replace", callee_path(t), re.I):
+                updates = True
+        if updates:
+            ctx.ok(rule, p.id, "a re-subscription updates the QoS its existing request is served with")
+        else:
+            ctx.violation(rule, p.id, "re-subscription keeps the old QoS",
+                          "when the filter is already subscribed prepare_filter changes nothing, but the Subscribe arm grants the newly requested QoS in the SUBACK: after re-subscribing at another QoS the client is served at the old one, not at the granted one",
+                          site=p.loc(p.blocks[ins[0][3]]["t"].get("sp")))
     # next_native_offset returns the log's next offset (tail)
     nn = prog.one(r"^router::logs::DataLog::next_native_offset$")
     if [bb for bb, t in nn.calls() if callee_path(t).endswith("CommitLog::<T>::next_offset")]:
